@@ -458,7 +458,8 @@ def check_csrf_protocol(rep: Report) -> None:
     def tg(test, truth):
         t = norm(test)
         out = []
-        if not truth and re.fullmatch(r'\w+ is not None', t):
+        # `found is not None` / `Token.get_one(..) is not None`: the lookup of the presented token
+        if not truth and (re.fullmatch(r'\w+ is not None', t) or re.fullmatch(r'.*\bget_one\(.*\) is not None', t)):
             out.append('reuse-refused')
         if not truth and isinstance(test, ast.Compare) and isinstance(test.ops[0], ast.NotEq) \
                 and ('sig' in t or 'digest' in t):
@@ -520,21 +521,38 @@ def check_csrf_protocol(rep: Report) -> None:
                 out.append('digest=' + norm(c_.args[2]) if len(c_.args) > 2 else 'digest=?')
         ups = []
         if obj is not None:
-            for n in ast.walk(fn):
+            from ..core import dfs_order as _dfs
+            pos_ = _dfs(fn)
+            for n in sorted(ast.walk(fn), key=lambda x: pos_.get(id(x), 0)):
                 if isinstance(n, ast.Call) and isinstance(n.func, ast.Attribute) \
                         and n.func.attr == 'update' and norm(n.func.value) == obj and n.args:
-                    cond = ''
+                    guards = []
+                    child = n
                     for a_ in ancestors(n):
                         if isinstance(a_, ast.If):
                             g = a_.test
                             d = _single_def(fn, norm(g)) if isinstance(g, (ast.Name, ast.Attribute)) else None
-                            cond = f' if {norm(d) if d is not None else norm(g)}'
+                            in_else = any(any(x is child for x in ast.walk(b_)) for b_ in a_.orelse)
+                            guards.append((norm(d) if d is not None else norm(g), not in_else))
                         if a_ is fn:
                             break
-                    ups.append(norm(n.args[0]) + cond)
-        return out + ups, obj, new_call
+                        child = a_
+                    ups.append((norm(n.args[0]), tuple(guards)))
+        # the update sequence for every valuation of the guards (one guard in practice: strict origin)
+        conds = sorted({g for _u, gs in ups for g, _t in gs})
+        seqs = []
+        if len(conds) <= 3:
+            import itertools as _it
+            for bits in _it.product((True, False), repeat=len(conds)):
+                val = dict(zip(conds, bits))
+                seq = [u for u, gs in ups if all(val[g] == t for g, t in gs)]
+                seqs.append(' when ' + ', '.join(f'{"" if v else "not "}{c}' for c, v in val.items()) + ': ' + ' + '.join(seq)
+                            if conds else 'updates: ' + ' + '.join(seq))
+        else:
+            seqs = [u + ''.join(f' [{"" if t else "not "}{g}]' for g, t in gs) for u, gs in ups]
+        return out + seqs, obj, new_call
     (a, _oa, _na), (b, hobj, hnew) = hmac_inputs(gen_t), hmac_inputs(chk)
-    if a == b and len(a) >= 5:
+    if a == b and len(a) >= 4:
         rep.ok(rid, construct, 'hmac inputs agree', '; '.join(a))
     else:
         rep.fail(rid, construct, 'hmac inputs agree',
